@@ -1,6 +1,7 @@
 CONSTANTS p = 3
  usq = 2
  ASet = "all"
+ BSet = "all"
  AssocAll = TRUE
  AssocStep = 1
  MaxK = 40
